@@ -561,7 +561,8 @@ def observe_expr(case):
     return out
 
 
-OBSERVERS = {"matrix": observe_matrix, "wrap": observe_wrap, "perm": observe_perm, "expr": observe_expr}
+OBSERVERS = {"matrix": observe_matrix, "wrap": observe_wrap, "perm": observe_perm, "expr": observe_expr,
+             "life": lambda case: observe_life(case)}
 
 
 def observe(item):
@@ -1188,6 +1189,484 @@ def judge_expr(case, obs, reps, index):
 
 
 # ------------------------------------------------------------------------------------------------
+# life stream: the Parameter lifecycle and parameters shared between slots (Model/C14Life.lean)
+# ------------------------------------------------------------------------------------------------
+# slot tables in constructor order: (slot, lo, hi, default shown by get_variables or None)
+LIFE_SLOTS = {
+    "BS": [("theta", 0.0, FOUR_PI, PI / 2), ("phi_tl", 0.0, TWO_PI, 0.0), ("phi_bl", 0.0, TWO_PI, 0.0),
+           ("phi_tr", 0.0, TWO_PI, 0.0), ("phi_br", 0.0, TWO_PI, 0.0)],
+    "PS": [("phi", 0.0, TWO_PI, None), ("max_error", 0.0, PI, 0.0)],
+    "WP": [("delta", -PI, PI, None), ("xsi", -PI, PI, None)],
+    "PR": [("delta", -PI, PI, None)],
+}
+LIFE_DEFAULT_ARG = {"theta": PI / 2, "max_error": 0.0}
+
+
+def life_slot_arg(op, slot):
+    return op["args"].get(slot, {"num": LIFE_DEFAULT_ARG.get(slot, 0.0)})
+
+
+def observe_life(case):
+    """run the history on the real classes; after every op: the exception class (or None) and a snapshot of
+    every parameter object and component"""
+    import perceval as pcvl
+    P, comps, kinds = {}, {}, {}
+    order = []
+    out = {"out": [], "snaps": []}
+
+    def pinfo(p):
+        return [p.min, p.max, bool(p.is_periodic), bool(p.is_variable), (float(p) if p.defined else None)]
+
+    def all_params():
+        d = {n: P[n] for n in order if n in P}
+        for cid, c in comps.items():
+            for slot, _, _, _ in LIFE_SLOTS[kinds[cid][0]]:
+                q = c.param(slot)
+                if not any(q is r for r in P.values()):
+                    d[f"{cid}.{slot}"] = q
+        return d
+
+    def snap():
+        s = {"params": {k: pinfo(q) for k, q in all_params().items()}, "comps": {}}
+        for cid, c in comps.items():
+            gv = c.get_variables()
+            row = []
+            for slot, _, _, _ in LIFE_SLOTS[kinds[cid][0]]:
+                if slot not in gv:
+                    row.append(None)
+                elif isinstance(gv[slot], str):
+                    row.append("name")
+                else:
+                    row.append(float(gv[slot]))
+            d = {"vars": sorted(c.vars.keys()), "defined": bool(c.defined), "getvars": row}
+            if c.defined:
+                try:
+                    d["num"] = cmat(np.array(c.compute_unitary(use_symbolic=False), dtype=complex).tolist())
+                    d["slots"] = {slot: float(c.param(slot)) for slot, _, _, _ in LIFE_SLOTS[kinds[cid][0]]}
+                except Exception as e:  # noqa: BLE001
+                    d["num"] = "err:" + type(e).__name__
+            s["comps"][cid] = d
+        return s
+
+    for op in case["ops"]:
+        k = op["k"]
+        res = None
+        try:
+            if k == "new":
+                P[op["x"]] = pcvl.P(op["x"], op["val"], op["lo"], op["hi"], op["periodic"])
+                if op["x"] not in order:
+                    order.append(op["x"])
+            elif k == "set":
+                P[op["x"]].set_value(op["v"], force=op["force"]) if op["force"] else P[op["x"]].set_value(op["v"])
+            elif k == "fix":
+                P[op["x"]].fix_value(op["v"])
+            elif k == "reset":
+                P[op["x"]].reset()
+            elif k == "per":
+                P[op["x"]].set_periodic(op["b"])
+            elif k == "mk":
+                args = {}
+                for slot, _, _, _ in LIFE_SLOTS[op["kind"]]:
+                    a = life_slot_arg(op, slot)
+                    if slot in op["args"] or slot not in LIFE_DEFAULT_ARG:
+                        args[slot] = P[a["ref"]] if "ref" in a else a["num"]
+                kinds[op["c"]] = (op["kind"], op.get("conv"))
+                comps[op["c"]] = build_component(op["kind"], op.get("conv"), args, op.get("how", "ctor"))
+            elif k == "assign":
+                d = {n: v for n, v in op["kv"]}
+                if op.get("via") == "compute":
+                    comps[op["c"]].compute_unitary(assign=d, use_symbolic=True)
+                else:
+                    comps[op["c"]].assign(d)
+            elif k == "resetall":
+                comps[op["c"]].reset_parameters()
+            elif k == "copy":
+                cc = comps[op["c"]].copy()
+                res = [pinfo(cc.param(slot)) for slot, _, _, _ in LIFE_SLOTS[kinds[op["c"]][0]]]
+            else:
+                raise KeyError(k)
+        except Exception as e:  # noqa: BLE001
+            res = type(e).__name__
+            if k == "mk":
+                comps.pop(op["c"], None)
+                kinds.pop(op["c"], None)
+        out["out"].append(res)
+        out["snaps"].append(snap())
+    return out
+
+
+def life_lean_req(case):
+    ops = []
+    r = lambda x: None if x is None else core.rat(x)  # noqa: E731
+    for op in case["ops"]:
+        k = op["k"]
+        if k == "new":
+            ops.append({"k": "new", "x": op["x"], "val": r(op["val"]), "lo": r(op["lo"]), "hi": r(op["hi"]),
+                        "periodic": bool(op["periodic"])})
+        elif k == "set":
+            ops.append({"k": "set", "x": op["x"], "v": r(op["v"]), "force": bool(op["force"])})
+        elif k == "fix":
+            ops.append({"k": "fix", "x": op["x"], "v": r(op["v"])})
+        elif k in ("reset", "per"):
+            ops.append(dict(op))
+        elif k == "mk":
+            slots = []
+            for slot, lo, hi, dflt in LIFE_SLOTS[op["kind"]]:
+                a = life_slot_arg(op, slot)
+                d = {"lo": r(lo), "hi": r(hi), "dflt": r(dflt)}
+                if "ref" in a:
+                    d["ref"] = a["ref"]
+                else:
+                    d["num"] = r(a["num"])
+                    d["key"] = f"{op['c']}.{slot}"
+                slots.append(d)
+            ops.append({"k": "mk", "c": op["c"], "slots": slots})
+        elif k == "assign":
+            ops.append({"k": "assign", "c": op["c"], "kv": [[n, r(v)] for n, v in op["kv"]]})
+        else:
+            ops.append({"k": k, "c": op["c"]})
+    return {"op": "life", "ops": ops}
+
+
+def life_num_eq(got, want, per_range=None):
+    """real float against the model's exact rational (string) / None"""
+    if got is None or want is None:
+        return got is None and want is None
+    w = float(core.unrat(want))
+    if per_range is not None:
+        return close_mod(got, w, per_range[0], per_range[1])
+    return core.close(got, w)
+
+
+def life_pinfo_diff(got, want):
+    """[min, max, periodic, variable, value] of the real object against the model's; name of the field that
+    differs or None"""
+    for i, f in ((0, "min"), (1, "max")):
+        if (got[i] is None) != (want[i] is None) or (got[i] is not None and got[i] != float(core.unrat(want[i]))):
+            return f
+    if got[2] != want[2]:
+        return "periodic"
+    if got[3] != want[3]:
+        return "variable"
+    rng = (got[0], got[1]) if (got[2] and got[0] is not None and got[1] is not None and got[0] < got[1]) else None
+    if not life_num_eq(got[4], want[4], rng):
+        return "value"
+    return None
+
+
+def life_compare(case, obs, rep):
+    """first difference between the real history and one variant of the model, as (op index, what) or None"""
+    for i, op in enumerate(case["ops"]):
+        go, mo = obs["out"][i], rep["out"][i]
+        if op["k"] == "copy" and isinstance(go, list) and isinstance(mo, list):
+            for (slot, _, _, _), g, m in zip(LIFE_SLOTS[life_kind(case, op["c"])], go, mo):
+                if isinstance(m, str):
+                    return i, f"copy: slot {slot} copied as {g}, model raises {m}"
+                f = life_pinfo_diff(g, m)
+                if f:
+                    return i, f"copy: {f} of slot {slot} is {g}, model {m}"
+        elif op["k"] == "copy" and isinstance(go, str):
+            first = next((m for m in (mo if isinstance(mo, list) else []) if isinstance(m, str)), None)
+            if first != go:
+                return i, f"copy raised {go}, model {first}"
+        elif go != mo:
+            return i, f"{op['k']} gives {go or 'no exception'}, model {mo or 'no exception'}"
+        gs, ms = obs["snaps"][i], rep["snaps"][i]
+        if sorted(gs["params"]) != sorted(ms["params"]):
+            return i, f"parameter objects {sorted(gs['params'])}, model {sorted(ms['params'])}"
+        for n, g in gs["params"].items():
+            f = life_pinfo_diff(g, ms["params"][n])
+            if f:
+                return i, f"{f} of parameter {n} is {g}, model {ms['params'][n]}"
+        if sorted(gs["comps"]) != sorted(ms["comps"]):
+            return i, f"components {sorted(gs['comps'])}, model {sorted(ms['comps'])}"
+        for cid, g in gs["comps"].items():
+            m = ms["comps"][cid]
+            if g["vars"] != sorted(m["vars"]):
+                return i, f"vars of {cid} are {g['vars']}, model {sorted(m['vars'])}"
+            if g["defined"] != m["defined"]:
+                return i, f"defined of {cid} is {g['defined']}, model {m['defined']}"
+            for (slot, _, _, _), a, b in zip(LIFE_SLOTS[life_kind(case, cid)], g["getvars"], m["getvars"]):
+                same = (a == b) if (a is None or b is None or isinstance(a, str) or b == "name") else \
+                    core.close(a, float(core.unrat(b)))
+                if not same:
+                    return i, f"get_variables of {cid} shows {a} for {slot}, model {b}"
+    return None
+
+
+def life_kind(case, cid):
+    return next(op["kind"] for op in case["ops"] if op["k"] == "mk" and op["c"] == cid)
+
+
+def life_oracle(case, obs):
+    """the property evaluated directly on the observed history (no model): list of (signature, what).
+    * a value accepted by set_value / fix_value / the constructor lies inside the bounds of the parameter;
+    * a fixed parameter keeps its value unless force / fix_value is used;
+    * the numeric matrix of every defined component is the documented matrix at the values REQUESTED for the
+      parameters plugged directly into its slots (the stored value must be equivalent for every slot), for
+      parameters whose periodicity was never declared by the user (no own two-sided range, no set_periodic)."""
+    bad = []
+    requested, user_periodic, fixedv = {}, set(), {}
+    comp_args = {}
+    for i, op in enumerate(case["ops"]):
+        k, res, snp = op["k"], obs["out"][i], obs["snaps"][i]
+        ok = res is None
+        if k == "new":
+            if op["lo"] is not None and op["hi"] is not None:
+                user_periodic.add(op["x"])
+            requested.pop(op["x"], None)
+            if ok and op["val"] is not None:
+                requested[op["x"]] = op["val"]
+        elif k in ("set", "fix") and ok:
+            requested[op["x"]] = op["v"]
+        elif k == "fix":
+            requested.pop(op["x"], None)        # (a rejected fix_value leaves a fixed parameter with its old value)
+        elif k == "reset" and ok:
+            if snp["params"].get(op["x"], [0, 0, 0, 0, 1])[4] is None:
+                requested.pop(op["x"], None)
+        elif k == "per":
+            user_periodic.add(op["x"])
+        elif k == "mk" and ok:
+            comp_args[op["c"]] = (op["kind"], op.get("conv"), {s: life_slot_arg(op, s) for s, _, _, _ in LIFE_SLOTS[op["kind"]]})
+        elif k == "assign":
+            prev = obs["snaps"][i - 1]["params"] if i else {}
+            for n, v in op["kv"]:
+                if n in snp["params"] and snp["params"][n][4] is not None and \
+                        (n not in prev or prev[n][4] != snp["params"][n][4] or ok):
+                    requested[n] = v
+                if not ok and (n not in snp["params"]):
+                    break
+            if not ok:          # which keys were applied before the failure is the model's business: do not judge them
+                for n, _ in op["kv"]:
+                    requested.pop(n, None)
+        elif k == "resetall" and ok:
+            for n in list(requested):
+                if n in snp["params"] and snp["params"][n][4] is None:
+                    requested.pop(n, None)
+        # accepted value inside the bounds
+        if k in ("set", "fix", "new") and ok:
+            info = snp["params"].get(op["x"])
+            if info and info[4] is not None and ((info[0] is not None and info[4] < info[0]) or
+                                                 (info[1] is not None and info[4] > info[1])):
+                bad.append(("life-value-outside-bounds", f"op {i} {k} on {op['x']}: accepted value {info[4]!r} is "
+                            f"outside [{info[0]}, {info[1]}]"))
+        # fixed parameters
+        forced = (k == "set" and op["force"]) or k in ("fix", "new")
+        for n, info in snp["params"].items():
+            if n in fixedv and not (forced and op.get("x") == n) and info[4] != fixedv[n] and not info[3]:
+                bad.append(("life-fixed-changed", f"op {i} {k}: fixed parameter {n} changed from {fixedv[n]} to {info[4]}"))
+            if not info[3]:
+                fixedv[n] = info[4]
+            else:
+                fixedv.pop(n, None)
+        # matrices
+        for cid, d in snp["comps"].items():
+            if "num" not in d or cid not in comp_args:
+                continue
+            kind, conv, args = comp_args[cid]
+            if isinstance(d["num"], str):
+                bad.append(("life-matrix-raises", f"op {i}: compute_unitary of {cid} gives {d['num']}"))
+                continue
+            vals, judged = {}, True
+            for slot, _, _, _ in LIFE_SLOTS[kind]:
+                a = args[slot]
+                if "ref" in a:
+                    if a["ref"] in user_periodic or a["ref"] not in requested:
+                        judged = False
+                        break
+                    vals[slot] = requested[a["ref"]]
+                else:
+                    vals[slot] = a["num"]
+            if not judged:
+                continue
+            doc = doc_matrix(kind, conv, vals)
+            if not core.mat_close(d["num"], doc, 1e-8):
+                shared = {a["ref"] for a in args.values() if "ref" in a}
+                bad.append(("shared-range-wraps-narrower-span" if life_shared_ranges(case, shared) else
+                            "life-matrix-not-documented",
+                            f"op {i} {k}: the matrix of {cid} ({kind}{'.' + conv if conv else ''}) with the requested "
+                            f"values {vals} differs from the documented matrix by "
+                            f"{core.mat_maxdiff(d['num'], doc):.3g} (stored slot values {d.get('slots')})"))
+    return bad
+
+
+def life_shared_ranges(case, names):
+    """some parameter of `names` is plugged into slots of different declared ranges"""
+    seen = {}
+    for op in case["ops"]:
+        if op["k"] != "mk":
+            continue
+        for slot, lo, hi, _ in LIFE_SLOTS[op["kind"]]:
+            a = life_slot_arg(op, slot)
+            if "ref" in a and a["ref"] in names:
+                seen.setdefault(a["ref"], set()).add((lo, hi))
+    return any(len(v) > 1 for v in seen.values())
+
+
+def judge_life(case, obs, reps):
+    rep = reps[0]
+    if "err" in rep:
+        return [("broken", "lean-driver", f"life request rejected: {rep['err']}")]
+    direct = life_oracle(case, obs)
+    fails = [("violation", sig, what) for sig, what in direct]
+    d_fix = life_compare(case, obs, rep["fix"])
+    if d_fix is None:
+        return fails
+    d_cur = life_compare(case, obs, rep["cur"])
+    if d_cur is None:
+        # the code follows the model of the pinned `_set_parameter` (periodic over the intersection of the
+        # ranges): a defect only where the property itself fails, which the direct oracle decides
+        return fails
+    if fails:
+        return fails
+    i, what = d_fix
+    return [("broken", "life-model-vs-code:" + case["ops"][i]["k"], f"op {i} {json.dumps(case['ops'][i])}: {what}")]
+
+
+# -- generator ------------------------------------------------------------------------------------
+def life_value(rng, lo, hi):
+    if lo is not None and hi is not None and lo < hi:
+        r = rng.random()
+        if r < 0.3:
+            return rng.uniform(lo, hi)
+        return lo + rng.uniform(-40, 41) * (hi - lo)
+    return rng.choice([rng.uniform(-20, 20), rng.uniform(-2, 5), 0.5, float(rng.randint(-6, 6))])
+
+
+def gen_life_case(rng, force_shared=None):
+    names = ["a", "b", "c"][:rng.randint(1, 3)]
+    ops = []
+    bounds = {}
+    for n in names:
+        r = rng.random()
+        if r < 0.5:
+            lo = hi = None
+            per = rng.random() < 0.8
+            val = None
+        elif r < 0.62:
+            lo = hi = None
+            per = True
+            val = rng.uniform(-10, 10)                    # fixed from the start
+        elif r < 0.74:
+            lo, hi, per, val = -2.0, 5.0, False, (None if rng.random() < 0.7 else rng.uniform(-4, 7))
+        elif r < 0.86:
+            lo, hi, per, val = rng.choice([0.0, -1.0]), rng.choice([1.0, 4.0, TWO_PI]), True, \
+                (None if rng.random() < 0.7 else rng.uniform(-9, 9))
+        elif r < 0.94:
+            lo, hi = rng.choice([(None, 3.0), (1.0, None)])
+            per, val = rng.random() < 0.5, None
+        else:
+            lo, hi = rng.choice([(1.0, 1.0), (2.0, 0.0)])   # degenerate: zero span / inverted
+            per, val = True, (None if rng.random() < 0.5 else rng.choice([1.0, 5.0]))
+        ops.append({"k": "new", "x": n, "val": val, "lo": lo, "hi": hi, "periodic": per})
+        bounds[n] = (lo, hi)
+    comps = []
+    shared = force_shared if force_shared is not None else rng.random() < 0.45
+    for step in range(rng.randint(4, 12)):
+        r = rng.random()
+        n = rng.choice(names)
+        lo, hi = bounds[n]
+        if r < 0.34:
+            ops.append({"k": "set", "x": n, "v": life_value(rng, lo, hi), "force": rng.random() < 0.2})
+        elif r < 0.40:
+            ops.append({"k": "fix", "x": n, "v": life_value(rng, lo, hi)})
+        elif r < 0.47:
+            ops.append({"k": "reset", "x": n})
+        elif r < 0.50:
+            ops.append({"k": "per", "x": n, "b": rng.random() < 0.5})
+        elif r < 0.72 and len(comps) < 3:
+            kind, conv = rng.choice([("PS", None), ("BS", "Rx"), ("BS", "Ry"), ("BS", "H"), ("WP", None), ("PR", None)])
+            cid = f"c{len(comps)}"
+            args = {}
+            slots = [sl for sl in LIFE_SLOTS[kind] if sl[0] != "max_error"]
+            first = True
+            for slot, slo, shi, _ in slots:
+                if rng.random() < (0.75 if first else 0.35):
+                    nm = n if (shared or first) else rng.choice(names)
+                    args[slot] = {"ref": nm}
+                    blo, bhi = bounds[nm]
+                    bounds[nm] = (slo if blo is None or slo > blo else blo, shi if bhi is None or shi < bhi else bhi)
+                else:
+                    args[slot] = {"num": slo + rng.uniform(-3, 4) * (shi - slo)}
+                first = False
+            ops.append({"k": "mk", "c": cid, "kind": kind, "conv": conv, "args": args,
+                        "how": rng.choice(["ctor", "static"]) if kind == "BS" else "ctor"})
+            comps.append((cid, kind))
+        elif r < 0.84 and comps:
+            cid, kind = rng.choice(comps)
+            kv = []
+            for _ in range(rng.randint(1, 3)):
+                nm = rng.choice(names + ["zz"]) if rng.random() < 0.25 else rng.choice(names)
+                b = bounds.get(nm, (None, None))
+                kv.append([nm, life_value(rng, *b)])
+            kv = list({k: [k, v] for k, v in kv}.values())      # (a dict: one entry per key)
+            ops.append({"k": "assign", "c": cid, "kv": kv,
+                        "via": "compute" if kind != "BS" and rng.random() < 0.3 else "assign"})
+        elif r < 0.90 and comps:
+            ops.append({"k": "resetall", "c": rng.choice(comps)[0]})
+        elif r < 0.97 and comps:
+            ops.append({"k": "copy", "c": rng.choice(comps)[0]})
+        else:
+            ops.append({"k": "set", "x": n, "v": life_value(rng, lo, hi), "force": False})
+    return {"ops": ops}
+
+
+def life_sweep_cases():
+    """deterministic histories, one per behaviour of the lifecycle (independent of the seed)"""
+    new = lambda x, val=None, lo=None, hi=None, per=True: {"k": "new", "x": x, "val": val, "lo": lo, "hi": hi,  # noqa: E731
+                                                           "periodic": per}
+    st = lambda x, v, force=False: {"k": "set", "x": x, "v": v, "force": force}  # noqa: E731
+    mk = lambda c, kind, args, conv=None: {"k": "mk", "c": c, "kind": kind, "conv": conv, "args": args}  # noqa: E731
+    ref = lambda n: {"ref": n}  # noqa: E731
+    out = []
+    # a parameter shared between theta [0,4pi] and a phase [0,2pi], in both orders, three slots, all conventions
+    for conv in ("Rx", "Ry", "H"):
+        for args in ({"theta": ref("x"), "phi_tl": ref("x")}, {"theta": ref("x"), "phi_br": ref("x"), "phi_bl": ref("x")}):
+            out.append({"ops": [new("x"), mk("c0", "BS", args, conv), st("x", 3 * PI), st("x", 1.0), st("x", 5 * PI),
+                                st("x", -PI), {"k": "copy", "c": "c0"}], "tag": "shared"})
+    # shared between PS [0,2pi] and PR / WP [-pi,pi]; between two components; PS then BS.theta
+    out.append({"ops": [new("y"), mk("c0", "PS", {"phi": ref("y")}), mk("c1", "PR", {"delta": ref("y")}),
+                        st("y", 1.5 * PI), st("y", -0.5 * PI), st("y", 0.25)], "tag": "shared"})
+    out.append({"ops": [new("y"), mk("c0", "WP", {"delta": ref("y"), "xsi": {"num": 0.3}}),
+                        mk("c1", "PS", {"phi": ref("y")}), st("y", 1.5 * PI), st("y", 0.5)], "tag": "shared"})
+    out.append({"ops": [new("z"), mk("c0", "PS", {"phi": ref("z")}), st("z", 7.0), mk("c1", "BS", {"theta": ref("z")}, "Rx"),
+                        st("z", 3 * PI), st("z", 2.0), mk("c2", "PS", {"phi": ref("z")}), st("z", 9.0)], "tag": "shared"})
+    # the same range twice: stays periodic
+    out.append({"ops": [new("s"), mk("c0", "BS", {"phi_tl": ref("s"), "phi_br": ref("s")}, "H"), mk("c1", "PS", {"phi": ref("s")}),
+                        st("s", 45.0), st("s", -45.0), {"k": "assign", "c": "c1", "kv": [["s", 100.0]], "via": "compute"}],
+                "tag": "same-range"})
+    # a user range: equal to the slot's, narrower, non periodic, wider
+    out.append({"ops": [new("u", None, 0.0, TWO_PI, True), mk("c0", "PS", {"phi": ref("u")}), st("u", 20.0),
+                        mk("c1", "BS", {"theta": ref("u")}, "Ry"), st("u", 20.0), st("u", 1.0)], "tag": "user-range"})
+    out.append({"ops": [new("u", None, 0.0, 1.0, False), mk("c0", "PS", {"phi": ref("u")}), st("u", 1.5), st("u", 0.5),
+                        new("w", None, -1.0, 10.0, True), mk("c1", "PS", {"phi": ref("w")}), st("w", 7.0), st("w", 3.0)],
+                "tag": "user-range"})
+    # preset (stale) value, then plugged in; copy wraps it again; reset; fix; force
+    out.append({"ops": [new("p"), st("p", 7.0), mk("c0", "PS", {"phi": ref("p")}), {"k": "copy", "c": "c0"}, st("p", 8.0),
+                        {"k": "reset", "x": "p"}, {"k": "copy", "c": "c0"}, {"k": "fix", "x": "p", "v": -1.0},
+                        {"k": "reset", "x": "p"}, st("p", 2.0), st("p", 2.0, True), {"k": "resetall", "c": "c0"}],
+                "tag": "lifecycle"})
+    # exception classes: ValueError before RuntimeError, TypeError with a missing bound, ZeroDivisionError, a
+    # rejected fix_value leaves a fixed undefined parameter
+    out.append({"ops": [new("f", 0.5, 0.0, 1.0, False), st("f", 3.0), st("f", 0.7), st("f", 0.7, True),
+                        new("o", None, None, 3.0, True), st("o", 5.0), st("o", 2.0), new("g", None, 0.0, 1.0, False),
+                        {"k": "fix", "x": "g", "v": 5.0}, st("g", 0.5), {"k": "reset", "x": "g"}, st("g", 0.5, True),
+                        new("d", None, 1.0, 1.0, True), st("d", 5.0), st("d", 1.0), new("i", None, 2.0, 0.0, True),
+                        st("i", 5.0), st("i", 1.0), new("e", 5.0, 1.0, 1.0, True)], "tag": "exceptions"})
+    # assign: partial effect, unknown key, a fixed parameter is not a variable; get_variables hides defaults
+    out.append({"ops": [new("a"), new("b"), new("k", 1.0), mk("c0", "BS", {"theta": ref("a"), "phi_tr": ref("b"), "phi_bl": ref("k")}, "Rx"),
+                        {"k": "assign", "c": "c0", "kv": [["a", 100.0], ["zz", 1.0], ["b", 2.0]], "via": "assign"},
+                        {"k": "assign", "c": "c0", "kv": [["b", -1.0], ["k", 2.0]], "via": "assign"},
+                        {"k": "assign", "c": "c0", "kv": [["a", PI / 2 + 5e-7], ["b", 5e-7]], "via": "assign"},
+                        {"k": "assign", "c": "c0", "kv": [["a", PI / 2 + 2e-6], ["b", 2e-6]], "via": "assign"},
+                        {"k": "copy", "c": "c0"}, {"k": "resetall", "c": "c0"}, {"k": "copy", "c": "c0"}], "tag": "assign"})
+    # a stale value of a non periodic (shared) parameter: copy() raises on the repaired code, wraps on the pinned one
+    out.append({"ops": [new("q"), st("q", 9.0), mk("c0", "BS", {"theta": ref("q"), "phi_tl": ref("q")}, "H"),
+                        {"k": "copy", "c": "c0"}, st("q", 1.0), {"k": "copy", "c": "c0"}], "tag": "lifecycle"})
+    return out
+
+
+# ------------------------------------------------------------------------------------------------
 # one case end-to-end (used by replay, corpus, shrinking)
 # ------------------------------------------------------------------------------------------------
 def lean_reqs(stream, case, obs):
@@ -1197,6 +1676,8 @@ def lean_reqs(stream, case, obs):
         return [wrap_req(case["lo"], case["hi"], case["periodic"], case["v"])], None
     if stream == "perm":
         return [{"op": "perm", "l": case["l"]}], None
+    if stream == "life":
+        return [life_lean_req(case)], None
     if obs.get("degenerate") or "err" in obs:
         return [{"op": "perm", "l": [0]}], []
     return expr_lean_reqs(case, obs)
@@ -1211,6 +1692,8 @@ def judge(stream, case, obs, reps, index=None):
         return judge_wrap(case, obs, reps)
     if stream == "perm":
         return judge_perm(case, obs, reps)
+    if stream == "life":
+        return judge_life(case, obs, reps)
     return judge_expr(case, obs, reps, index)
 
 
